@@ -19,7 +19,7 @@ def _restore():
     shutil.rmtree(os.path.join(V, 'evidence'), ignore_errors=True); shutil.copytree(os.path.join(_keep, 'evidence'), os.path.join(V, 'evidence')); shutil.rmtree(_keep, ignore_errors=True)
 atexit.register(_restore)
 assert subprocess.run(['git', '-C', '/repo', 'status', '--porcelain'], capture_output=True, text=True).stdout.strip() == '', '/repo is not clean'
-for d in sorted(glob.glob(os.path.join(V, 'seeded', 'C*_m*')) + glob.glob(os.path.join(V, 'seeded', 'R3_*')) + glob.glob(os.path.join(V, 'seeded', 'R5_*'))):
+for d in sorted(glob.glob(os.path.join(V, 'seeded', 'C*_m*')) + glob.glob(os.path.join(V, 'seeded', 'R3_*')) + glob.glob(os.path.join(V, 'seeded', 'R5_*')) + glob.glob(os.path.join(V, 'seeded', 'R6_*'))):
     name = os.path.basename(d)
     if os.environ.get('SEEDS') and not re.search(os.environ['SEEDS'], name): continue
     meta = json.load(open(os.path.join(d, 'meta.json')))
